@@ -784,6 +784,13 @@ def enum_corpus(tier, seed):
         e = EnumDef("E", bits, list(spec_), "conditional")
         e.tag = f"conditional u{bits}: the same variant NAME declared under exclusive cfgs with different discriminants {spec_}"
         Es.append(e)
+    # variant and type names that generated code might itself want to use unqualified
+    for (nm, bits, spec_, ex) in (("E", 2, [("Ok", 0, None), ("Err", 1, None), ("None", 3, None)], None), ("E", 1, [("Some", 1, None), ("None", 0, None)], "true"),
+                                  ("E", 3, [("Self_", 0, None), ("Result", 1, None), ("Option", 2, None), ("Default", 5, None), ("MAX", 7, None)], "false"),
+                                  ("Value", 2, [("Value", 0, None), ("Raw", 2, None)], None), ("Output", 8, [("Zero", 0, None), ("Max", 255, None)], None)):
+        e = EnumDef(nm, bits, list(spec_), ex)
+        e.tag = f"u{bits} enum {nm} with variants named {[x[0] for x in spec_]}"
+        Es.append(e)
     return Es
 
 
